@@ -212,16 +212,33 @@ EMU_OPS = [
 
 def emu_histories(tier):
     depth = 3 if tier == "quick" else 4
-    first = ("enable_eom", "g", 2.0, 1.0, -10.0, True)
+    first = ("enable_eom", "g", 2.0, 1.0, -10.0, True)  # NB: the off-detuning of this setpoint is exactly 0 (drift only after modify)
+    strong = ("enable_eom", "g", 20.0, 0.0, -40.0, True)  # off-detuning -31.8 rad/us: every idle ns in the block drifts the phase
     out = []
     for d in range(1, depth + 1):
         for tail in itertools.product(EMU_OPS, repeat=d):
             out.append((first,) + tail)
+    for d in range(1, depth):
+        for tail in itertools.product(EMU_OPS, repeat=d):
+            out.append((strong,) + tail)
+            # an ordinary pulse BEFORE the block whose fall time (103 ns at 0.3 rad/us) is not a multiple of the channel clock (16 ns here, so that the rounding is 9 / 6 ns):
+            # the wait before the buffer is rounded up, and the drift is counted from where the off-detuning really starts
+            for a in (0.3, 0.1):
+                out.append((("@world", "clock16"), ("add", ["c", 400, a, 0.0, 0.0], "g"), strong) + tail)
     return out
 
 
 EMU_WORLD = corner("real", name="emu-eom", prefix=[("declare", "g", "rydberg_global")], qubits=2, clock=1, min_dur=1,
                    eom=dict(controlled_beams=["BLUE"]))
+EMU_WORLD4 = corner("real", name="emu-eom-clock16", prefix=[("declare", "g", "rydberg_global")], qubits=2, clock=16, min_dur=16,
+                    eom=dict(controlled_beams=["BLUE"]))
+
+
+def emu_tol(hist):
+    """The emulator interpolates between integer-ns samples: where a strongly detuned idle slot meets a pulse, half a sample of
+    both is mixed (31.8 rad/us x 0.5 ns = 0.016 rad), which moves populations by a few 1e-4.  Histories with the strong setpoint
+    are therefore compared at 6e-4, the others at 5e-5."""
+    return 6e-4 if any(len(op) > 4 and op[0] in ("enable_eom",) and op[2] == 20.0 for op in hist) else 5e-5
 
 
 def emu_case(hist):
@@ -230,6 +247,9 @@ def emu_case(hist):
     from pulser_simulation import QutipEmulator
 
     w = World(EMU_WORLD)
+    if hist and hist[0][0] == "@world":
+        w = World(EMU_WORLD4)
+        hist = hist[1:]
     reg = Register({"q0": (0.0, 0.0)})
     seq = Sequence(reg, w.device)
     seq.declare_channel("g", "rydberg_global")
@@ -313,7 +333,7 @@ def run(tier, seed):
         valid += 1
         worst = max(worst, abs(o[0] - o[1]))
         res.activations["emu_histories"] = res.activations.get("emu_histories", 0) + 1
-        if abs(o[0] - o[1]) > 5e-5:
+        if abs(o[0] - o[1]) > emu_tol(h):
             kinds = "+".join(sorted({op[0] for op in h[1:]}))
             res.add(Violation(f"C15:drift-correction-populations:{kinds}",
                               f"P(r)={o[0]:.6f} with drift correction vs {o[1]:.6f} for the same {o[2]} pulses at zero off-detuning",
@@ -327,7 +347,7 @@ def run(tier, seed):
     res.coverage = cov
     res.required_activations = ["eom_pulses_checked", "eom_idle_checked", "setpoints_checked", "refsched_compared:enable_eom",
                                 "refsched_compared:modify_eom", "refsched_compared:disable_eom", "emu_histories"]
-    res.assumptions = ["populations compared at the end of the sequence with tolerance 5e-5", "EOM option set derived from the "
+    res.assumptions = ["populations compared at the end of the sequence with tolerance 5e-5 (6e-4 for the -31.8 rad/us off-detuning: sample interpolation of the emulator)", "EOM option set derived from the "
                        "documented light-shift formula ls = (c_B O_B^2 - c_R O_R^2) / 4 Delta with the limiting beam capped"]
     return res
 
@@ -354,7 +374,7 @@ def replay(payload):
     if eng == "emu":
         h = tuple(tuple(x) for x in payload["history"])
         o = emu_case(h)
-        if o and o[0] != "harness" and abs(o[0] - o[1]) > 5e-5:
+        if o and o[0] != "harness" and abs(o[0] - o[1]) > emu_tol(h):
             kinds = "+".join(sorted({op[0] for op in h[1:]}))
             return [Violation(f"C15:drift-correction-populations:{kinds}", f"{o}", payload)]
         return []
